@@ -15,7 +15,8 @@ from harness import expr
 PROPERTY_ID = 'C06'
 RULE = ('Operation lists (3-25 ops) on one Sector with a sibling sector in the same country: flow(term, is_income, '
         'defining expression or none), exclusion(this sector | sibling, flow name), define(variable, rhs). Terms: name, '
-        'a*b, a/b, n*x in the spellings t,+t,-t,(t),(+t),(-t),-(-t),-(t) with optional spaces; few names so that repeats '
+        'a*b, a/b, n*x, qualified names of variables of another sector whose local part equals one of the flow '
+        'names (O__W next to W), in the spellings t,+t,-t,(t),(+t),(-t),-(-t),-(t) with optional spaces; few names so that repeats '
         'and cancellations are frequent. The invariant is checked after every operation. Non-trivial: the sequence '
         'contains a repeated flow, a cancelling pair, an exclusion that hits a later income flow, and a definition '
         'attempt on an existing variable (at least three of these four). Distinct: sha1 of the op list.')
@@ -27,7 +28,10 @@ ASSUMPTIONS = [
 ]
 
 ATOMS = ['W', 'DIV', 'T', 'G', 'p', 'q']
-CORES = ['W', 'DIV', 'T', 'G', 'p*q', 'W/q', '2*G', 'p*W', 'DEM_GOOD', 'SUP_LAB']
+# qualified names of OTHER sectors' variables (what Model.RegisterCashFlow hands to the receiving sector) share their
+# local part with this sector's own flows and exclusions: O__W is a different flow from W
+QUALIFIED = ['O__W', 'O__DIV', 'BUS__DEM_GOOD']
+CORES = ['W', 'DIV', 'T', 'G', 'p*q', 'W/q', '2*G', 'p*W', 'DEM_GOOD', 'SUP_LAB'] + QUALIFIED
 SIGNS = [('%s', 1), ('+%s', 1), ('-%s', -1), ('(%s)', 1), ('(+%s)', 1), ('(-%s)', -1), ('-(-%s)', 1), ('-(%s)', -1),
          (' - %s', -1), ('+ %s ', 1), ('+(-%s)', -1)]
 EQNS = [None, None, None, '', 'p*q', 'OTHER__X', '0.0', 'W + 1', '2*G']
@@ -47,8 +51,8 @@ def case(draw):
                 core = core.replace('*', ' * ').replace('/', ' / ')
             form, _sign = draw(st.sampled_from(SIGNS))
             eqn = draw(st.sampled_from(EQNS))
-            if not core.replace('_', '').isalnum():
-                eqn = None
+            if not core.replace('_', '').isalnum() or '__' in core:
+                eqn = None      # (a qualified name cannot be DEFINED on the receiving sector: the framework passes none)
             ops.append(['flow', form % core, draw(st.booleans()), eqn])
         elif k <= 7:
             ops.append(['excl', draw(st.sampled_from(['self', 'self', 'other'])), draw(st.sampled_from(CORES))])
@@ -62,7 +66,7 @@ def case(draw):
                             draw(st.lists(st.sampled_from(['p', 'q', '-p', 'G', '2*G', 'p*q', '-G']), min_size=1, max_size=3))])
         else:
             ops.append(['flow', draw(st.sampled_from(['', '  '])), True, None])
-    names = ATOMS + ['DEM_GOOD', 'SUP_LAB', 'LAG_F', 'OTHER__X']
+    names = ATOMS + ['DEM_GOOD', 'SUP_LAB', 'LAG_F', 'OTHER__X'] + QUALIFIED
     vals = [{nm: '%d/%d' % (draw(st.integers(1, 30)) * draw(st.sampled_from([1, -1])), draw(st.integers(1, 7)))
              for nm in names} for _ in range(3)]
     return {'ops': ops, 'vals': vals}
